@@ -16,6 +16,7 @@ import TantivyModel.Proofs.PositionReader
 import TantivyModel.Proofs.PositionsAfterSeeks
 import TantivyModel.Proofs.FieldSerializer
 import TantivyModel.Proofs.VInt32Source
+import TantivyModel.Proofs.BlockCursorSeek
 /-!
 # C07 — The inverted index records exactly the terms, documents, frequencies, positions
 
@@ -365,6 +366,41 @@ theorem C07_lazy_cursor_freqs (o : RecOpt) (ho : hasFreq o = true) (docs tfs : L
    fun p hs hf => drain_reset_encode_tfs cfg o ho (by decide) (by decide) (by decide) C07_bp4x_good
      docs tfs hv p hs hf⟩
 
+/-- **The lazy cursor's seek.** `BlockSegmentPostings::seek` on the bytes `PostingsSerializer` writes
+— the skip reader stepping entry by entry while `last_doc_in_block < target` (byte offset and
+`last_doc_in_previous_block` carried along), `load_block` decoding only the block it stops on, the
+in-block search on the `TERMINATED`-padded buffer — lands on the first doc `≥ target` of the list
+(`TERMINATED` if there is none), at an index below the block size; for a freshly opened cursor and
+for a recycled one, whatever it had read before. -/
+theorem C07_lazy_seek (o : RecOpt) (docs tfs : List Nat) (hv : ValidList docs tfs)
+    (hT : ∀ d ∈ docs, d < cfg.T) (target : Nat) (ht : target ≤ cfg.T) :
+    (let r := (BlockPostings.open cfg o o docs.length (encodeTerm cfg o docs tfs)).seek cfg target
+     r.1.docBuf.getD r.2 cfg.T = docs.getD (docs.countP (· < target)) cfg.T ∧ r.2 < cfg.B) ∧
+    ∀ p : BlockPostings, p.skip.skipInfo = o → p.freqOpt = freqOptOf o o →
+      (let r := (p.reset cfg docs.length (encodeTerm cfg o docs tfs)).seek cfg target
+       r.1.docBuf.getD r.2 cfg.T = docs.getD (docs.countP (· < target)) cfg.T ∧ r.2 < cfg.B) := by
+  have key : ∀ q : BlockPostings, LazyAt cfg o docs tfs 0 q →
+      (q.seek cfg target).1.docBuf.getD (q.seek cfg target).2 cfg.T =
+        docs.getD (docs.countP (· < target)) cfg.T ∧ (q.seek cfg target).2 < cfg.B := by
+    intro q hq
+    have h := seekAll_lazyAt o docs tfs hv hT [target] 0 q hq (Nat.zero_le _) (by simp)
+      (by simpa using ht) (by simp)
+    obtain ⟨_, _, _, _, _, _, hlt, _⟩ := seek_lazyAt o docs tfs hv hT target ht 0 q hq
+    simp only [BlockPostings.seekAll, List.map_cons, List.map_nil, List.cons.injEq, and_true] at h
+    exact ⟨h, hlt⟩
+  exact ⟨key _ (open_lazyAt cfg o (by decide) (by decide) docs tfs hv),
+    fun p hs hf => key _ (reset_lazyAt o docs tfs hv p hs hf)⟩
+
+/-- **A program of seeks on the lazy cursor** (non-decreasing targets, the `DocSet` contract): every
+seek of the program — each continuing from the block the previous one stopped on, without
+re-decoding when the skip reader did not move — lands on the first doc `≥` its target. -/
+theorem C07_lazy_seek_program (o : RecOpt) (docs tfs : List Nat) (hv : ValidList docs tfs)
+    (hT : ∀ d ∈ docs, d < cfg.T) (ts : List Nat) (hs : ts.Pairwise (· ≤ ·)) (hts : ∀ t ∈ ts, t ≤ cfg.T) :
+    BlockPostings.seekAll cfg (BlockPostings.open cfg o o docs.length (encodeTerm cfg o docs tfs)) ts =
+      ts.map (fun t => docs.getD (docs.countP (· < t)) cfg.T) :=
+  seekAll_lazyAt o docs tfs hv hT ts 0 _ (open_lazyAt cfg o (by decide) (by decide) docs tfs hv)
+    (Nat.zero_le _) hs hts (by simp)
+
 /-! ### TermInfoStore -/
 
 /-- **TermInfoStore round trip.** For every list of TermInfos whose ranges are ordered, below `2^56`
@@ -586,6 +622,8 @@ example : JsonPositions.occs 1 [⟨[97], true, [⟨[1], 0, 1⟩, ⟨[2], 1, 1⟩
   decide
 example : Recorder.sortPostings ([⟨0, 1, [0]⟩, ⟨1, 2, [0, 2]⟩, ⟨2, 1, [4]⟩].map (Recorder.remapPosting (fun d => 2 - d))) =
     [⟨0, 1, [4]⟩, ⟨1, 2, [0, 2]⟩, ⟨2, 1, [0]⟩] := by decide
+example : BlockPostings.seekAll cfg (BlockPostings.open cfg .basic .basic 3 [129, 132, 132]) [0, 2, 9, 10] =
+    [1, 5, 9, cfg.T] ∧ [0, 2, 9, 10].Pairwise (· ≤ ·) ∧ (∀ d ∈ [1, 5, 9], d < cfg.T) := by decide +kernel
 example : (BlockPostings.open cfg .basic .basic 3 [129, 132, 132]).skip.skipInfo = .basic ∧
     (BlockPostings.open cfg .basic .basic 3 [129, 132, 132]).freqOpt = freqOptOf .basic .basic ∧
     ValidList [1, 5, 9] [1, 1, 1] := by
